@@ -50,6 +50,18 @@ theorem C06_junk (j : Bytes)
     dltMessage (j ++ (m.asBytes ++ sfx)) none true = .ok (.item m, sfx) :=
   (dltMessage_ok_iff _ _ _ _ _).2 (dltMessageIntern_junk_asBytes j hj m h hs sfx)
 
+/-- the same for EVERY continuation and EVERY filter, not only for a well-formed message
+    without filter: whatever follows the first pattern occurrence (a message that is delivered,
+    one the filter drops, a damaged or an incomplete one), junk in front of it changes neither
+    the verdict nor the remainder.  (`x` holds at least the 16 storage-header bytes; with fewer
+    the parser asks for more data before it searches.) -/
+theorem C06_junk_any (j x : Bytes) (f : Option ProcessedFilter) (h16 : 16 ≤ x.length)
+    (hp : x.take 4 = DLT_PATTERN)
+    (hj : ∀ k, k < j.length → ((j ++ DLT_PATTERN).drop k).take 4 ≠ DLT_PATTERN) :
+    dltMessage (j ++ x) f true = dltMessage x f true := by
+  unfold dltMessage
+  rw [dltMessageIntern_junk j x f h16 hp hj]
+
 /-- the hypothesis of `C06_junk` holds for every junk string without the byte 'D' (0x44):
     no occurrence can start inside it -/
 theorem C06_noD_junk (j : Bytes) (hj : ∀ b ∈ j, b ≠ 0x44#8) (k : Nat) (hk : k < j.length) :
